@@ -74,9 +74,16 @@ def handleServe : Handler := fun st op args =>
           | (.ok _, sv') => some ({ st with serve := sv' }, "bad-resp")
           | (.error e, sv') => some ({ st with serve := sv' }, fmtErr e)
         else
-          -- a sorting engine: only the cache rule is the model's; the engine state behind it is not followed
-          let c := st.serve.analyzeCache.getPlayer env (env.size p) depth precise
-          some ({ st with serve := { st.serve with analyzeCache := c } }, s!"{fmtNew repl c} searched")
+          -- a sorting engine: only the cache rule is the model's; the engine state behind it is not followed, so
+          -- the driver does not allocate the new engine's table (`getPlayer` with a 1-entry stand-in)
+          let c : Serve.Cache Move :=
+            if repl then
+              let pl := Serve.newPlayer { env with tableEntries := 1 } (env.size p) depth precise
+              { size := env.size p, depth := depth, precise := precise, player := some pl }
+            else st.serve.analyzeCache
+          let tbl := (Serve.playerCfg env.tableEntries depth precise).tableEntries.getD 0
+          some ({ st with serve := { st.serve with analyzeCache := c } },
+            (if repl then s!"new tbl={tbl}" else "reuse") ++ " searched")
     | _, _ => some (st, "bad-op")
   | "sv.tak", [tps] =>
     match fromHex tps with
